@@ -135,6 +135,35 @@ def scn_values(ctx):
     sched.vsleep_until(sched.now() + 8 * ctx.eps)
     ctx.check("future-finishes", out.done(), "%s%r: every input has finished, the output is still pending" % (
         name, [(i, type(menu[k]).__name__) for i, k in picks]))
+    if name in ("f_or", "f_and") and out.done():
+        # Python's own fold over the completion order: `and` / `or` test the truth of every operand but the last
+        seq = [menu[k] for _i, k in picks]
+        exp = None
+        for idx, v in enumerate(seq):
+            last = idx == len(seq) - 1
+            if isinstance(v, Exception):
+                if name == "f_and" or last:
+                    exp = ("error", v)
+                    break
+                continue
+            if last:
+                exp = ("value", v)
+                break
+            try:
+                t = bool(v)
+            except Exception as e_:  # noqa
+                exp = ("error-type", type(e_))
+                break
+            if t == (name == "f_or"):
+                exp = ("value", v)
+                break
+        o = outcome(out)
+        if exp[0] == "error-type":
+            ok = o[0] == "error" and isinstance(o[1], exp[1])
+        else:
+            ok = o[0] == exp[0] and o[1] is exp[1]
+        ctx.check("outcome-is-pythons-fold", ok, "%s over %r (completion order): got %r, `%s` gives %r" % (
+            name, [type(v).__name__ for v in seq], o, name[2:], exp))
     ctx.reach("values-checked")
     return True
 
